@@ -258,6 +258,47 @@ def run_row(ctx, name, row, rs, idx, new_data=True):
     return None
 
 
+def kauri_sequences(ctx, rs, reps):
+    """several Kauri estimators fitted one after the other in the same process, on different data and limits: every one of them
+    (the EARLIER ones included, re-examined after the later fits) returns labels in range together with a tree that reproduces them"""
+    from gemclus.tree import Kauri
+    how = "Kauri(**p1).fit(X1); Kauri(**p2).fit(X2); ... then predict / labels_ / tree_ of each model"
+    for rep in range(reps):
+        fitted = []
+        with sl.kauri_translit():
+            for j in range(3):
+                n, d = int(rs.randint(8, 16)), int(rs.randint(1, 4))
+                X = sl.make_data(rs, n, d, nonneg=False)
+                p = {"max_clusters": int(rs.randint(2, 5)), "max_depth": [None, 2, 3][rs.randint(3)], "kernel": ["linear", "rbf"][rs.randint(2)],
+                     "random_state": int(rs.randint(100))}
+                try:
+                    m = Kauri(**p).fit(X)
+                except Exception as e:
+                    ctx.violation(f"Kauri fit number {j + 1} in the same process raised {type(e).__name__}: {e}", "fit",
+                                  {"estimator": "Kauri", "params": p, "X": np.asarray(X).tolist(), "earlier_fits": len(fitted)},
+                                  key="kauri-sequence:raise", how=how)
+                    break
+                fitted.append((m, np.asarray(X, float), p))
+            for j, (m, X, p) in enumerate(fitted):
+                ctx.compared("kauri-sequence")
+                ctx.case(("kauri-seq", rep, j, X.tobytes(), repr(p)), True, None)
+                bad = coherence_kauri(m, {"params": p}, X)
+                try:
+                    pred = np.asarray(m.predict(X))
+                    if pred.shape != (len(X),) or not (pred == np.asarray(m.labels_)).all():
+                        bad.append(("predict-labels", "predict(X_train) differs from labels_", np.asarray(m.labels_).tolist(), pred.tolist()))
+                    t = m.tree_
+                    nl = sum(1 for c in t.children_left if c == -1)
+                    if t.n_nodes != len(t.children_left) or t.n_nodes != 2 * nl - 1:
+                        bad.append(("tree-shape", f"tree_ has n_nodes={t.n_nodes}, {len(t.children_left)} stored nodes, {nl} leaves", None, None))
+                except Exception as e:
+                    bad.append(("api-raises", f"{type(e).__name__}: {str(e)[:160]} when model {j + 1} of {len(fitted)} is examined after the later fits", None, None))
+                for check, msg, exp, act in bad:
+                    ctx.violation(f"Kauri model number {j + 1} of {len(fitted)} fitted in one process: {msg}", check,
+                                  {"estimator": "Kauri", "params": p, "X": X.tolist(), "position_in_sequence": j + 1, "sequence_length": len(fitted)},
+                                  expected=exp, actual=act, key=f"kauri-sequence:{check}", how=how)
+
+
 def refit(ctx, name, row, rs, info, model, X, y):
     """the SAME estimator object fitted a second time on other data (same or larger sample count): the second fit must
     give a coherent model of the NEW data (labels of the new length, predict = arg-max = labels_, score = GEMINI of the new
@@ -380,6 +421,7 @@ def run(ctx):
             res = run_row(ctx, name, row, rs, idx)
             if res is not None and name in KIND and (ctx.tier != "quick" or idx % 3 == 0):
                 fitted.append((name, res[0], res[1]))
+    kauri_sequences(ctx, rs, 4 if ctx.tier == "quick" else 40)
     cap = 50 if ctx.tier == "quick" else 500
     chosen, seen = [], {}
     for name, model, X in fitted:
